@@ -1,6 +1,7 @@
 package harness
 
 import (
+	"bytes"
 	"context"
 	"errors"
 	"fmt"
@@ -15,6 +16,7 @@ import (
 
 	"github.com/nspcc-dev/neo-go/pkg/config"
 	"github.com/nspcc-dev/neo-go/pkg/core"
+	"github.com/nspcc-dev/neo-go/pkg/core/native/nativehashes"
 	"github.com/nspcc-dev/neo-go/pkg/core/native/noderoles"
 	"github.com/nspcc-dev/neo-go/pkg/core/state"
 	"github.com/nspcc-dev/neo-go/pkg/core/transaction"
@@ -81,9 +83,10 @@ type c13E2EOpt struct {
 	StartDelay   []int  `json:"start_delay_blocks"`          // per member
 	Stage        string `json:"prepared_state,omitempty"`    // see c13Prepare; "": fresh chain
 	BlockMs      int    `json:"block_interval_ms,omitempty"` // 0: the default
-	Sweep        bool   `json:"threshold_sweep,omitempty"`   // after the run: re-runs with balances put on the thresholds of the funds stage
-	CancelMember int    `json:"cancelled_member"`            // -1: nobody
-	CancelAt     int    `json:"cancelled_at_block"`          // blocks after the start
+	Slow         int    `json:"relaxed_timing_factor,omitempty"`
+	Sweep        bool   `json:"threshold_sweep,omitempty"` // after the run: re-runs with balances put on the thresholds of the funds stage
+	CancelMember int    `json:"cancelled_member"`          // -1: nobody
+	CancelAt     int    `json:"cancelled_at_block"`        // blocks after the start
 	RestartAfter int    `json:"restarted_after_blocks"`
 }
 
@@ -219,7 +222,7 @@ func (x *c13Net) sweep(fs []contracts.Contract, bank neotest.Signer, res *c13E2E
 		x.sent, x.notaryReqs = nil, 0
 		x.mu.Unlock()
 		sr := c13SweepRes{Name: cf.name, ValidatorBefore: gas(vAcc), LeaderBefore: gas(leader), ExpectIdle: cf.expectIdle}
-		ret, _, used := x.runDeploy(fs, c13E2EOpt{N: n, Budget: 80, CancelMember: -1})
+		ret, _, used := x.runDeploy(fs, c13E2EOpt{N: n, Budget: 80 * min(x.slow, 2), CancelMember: -1})
 		sr.Blocks = used
 		for _, e := range ret {
 			if e == "" {
@@ -227,7 +230,7 @@ func (x *c13Net) sweep(fs []contracts.Contract, bank neotest.Signer, res *c13E2E
 			}
 		}
 		x.mu.Lock()
-		sr.Sent = len(x.sent) + x.notaryReqs
+		sr.Sent = x.sentBesidesDeposits() + x.notaryReqs
 		x.mu.Unlock()
 		sr.ValidatorAfter, sr.LeaderAfter, sr.Contracts = gas(vAcc), gas(leader), x.deployedContracts()
 		switch {
@@ -394,7 +397,8 @@ loop:
 		select {
 		case <-back:
 			break loop
-		case <-time.After(time.Duration(x.blockMs) * time.Millisecond):
+		default:
+			x.pace()
 			x.addBlock()
 			sample()
 		}
@@ -501,7 +505,8 @@ func (x *c13Net) prepare(fs []contracts.Contract, stage string) map[string]any {
 			select {
 			case <-back:
 				break loop
-			case <-time.After(time.Duration(x.blockMs) * time.Millisecond):
+			default:
+				x.pace()
 				x.addBlock()
 			}
 		}
@@ -551,7 +556,8 @@ loop:
 		select {
 		case <-back:
 			break loop
-		case <-time.After(time.Duration(x.blockMs) * time.Millisecond):
+		default:
+			x.pace()
 			x.addBlock()
 		}
 	}
@@ -562,13 +568,33 @@ loop:
 	}
 }
 
+// sentBesidesDeposits counts the transactions members sent, not counting top-ups
+// of their own Notary deposit (GAS transfer of the member to the Notary
+// contract): how much of a deposit the first run consumed depends on how many
+// of its requests expired, i.e. on timing; refilling it later deploys,
+// updates, registers and designates nothing. Caller holds x.mu.
+func (x *c13Net) sentBesidesDeposits() int {
+	k := 0
+	for _, s := range x.sent {
+		sc := s.Tx.Script
+		if bytes.Contains(sc, []byte("transfer")) && bytes.Contains(sc, nativehashes.Notary.BytesBE()) &&
+			bytes.Contains(sc, nativehashes.GasToken.BytesBE()) && s.Member >= 0 &&
+			bytes.Contains(sc, x.accs[s.Member].ScriptHash().BytesBE()) {
+			continue
+		}
+		k++
+	}
+	return k
+}
+
 func c13RunE2E(t testing.TB, opt c13E2EOpt, salt int64) *c13E2E {
 	n := opt.N
-	ms := 10 // only the number of blocks matters to Deploy; the bootstrap-only runs keep c13BlockMs
+	ms := 5 // only the number of blocks matters to Deploy; the bootstrap-only runs keep c13BlockMs
 	if opt.BlockMs > 0 {
 		ms = opt.BlockMs
 	}
 	x := newC13NetMs(t, n, salt, ms)
+	x.slow = max(opt.Slow, 1)
 	x.withNotary()
 	// every member starts with 20 GAS only: after the run the leader (who paid for NNS, the system contracts,
 	// its Alphabet contract and the domains) is below the 150 GAS refill mark of the funds stage
@@ -653,7 +679,7 @@ func c13RunE2E(t testing.TB, opt c13E2EOpt, salt int64) *c13E2E {
 		}
 		res.RerunValidator = fixedn.Fixed8(x.bc.GetUtilityTokenBalance(x.exec.Validator.ScriptHash()).Int64()).String()
 		res.RerunLeader = fixedn.Fixed8(x.bc.GetUtilityTokenBalance(x.accs[0].ScriptHash()).Int64()).String()
-		ret, _, used := x.runDeploy(fs, c13E2EOpt{N: n, Budget: 60, CancelMember: -1})
+		ret, _, used := x.runDeploy(fs, c13E2EOpt{N: n, Budget: 60 * min(x.slow, 2), CancelMember: -1})
 		res.RerunBlocks = used
 		for _, e := range ret {
 			if e == "" {
@@ -661,7 +687,7 @@ func c13RunE2E(t testing.TB, opt c13E2EOpt, salt int64) *c13E2E {
 			}
 		}
 		x.mu.Lock()
-		res.RerunSent = len(x.sent) + x.notaryReqs
+		res.RerunSent = x.sentBesidesDeposits() + x.notaryReqs
 		if os.Getenv("VERIF_C13_LOG") != "" {
 			for _, s := range x.sent {
 				fmt.Printf("RERUN-SENT m%d %+v err=%v\n", s.Member, c13Classify(s.Tx), s.Err)
@@ -725,7 +751,7 @@ func c13EndToEnd(c *c13) (string, string) {
 	late := func(n, who, by int) sc {
 		d := make([]int, n)
 		d[who] = by
-		return sc{c13E2EOpt{N: n, Budget: by + 300, CancelMember: -1, StartDelay: d, BlockMs: 8},
+		return sc{c13E2EOpt{N: n, Budget: by + 300, CancelMember: -1, StartDelay: d, BlockMs: 5},
 			fmt.Sprintf("member %d of %d joins %d blocks after the others", who, n, by)}
 	}
 	scs = append(scs, late(4, 3, 380))
@@ -779,56 +805,67 @@ func c13EndToEnd(c *c13) (string, string) {
 	}
 	var fcases []string
 	for i, s := range scs {
-		c13Guard(c, "deploy.Deploy "+s.note, func() any { return s.opt }, func() {
-			res := c13RunE2E(c.t, s.opt, int64(7000+i))
-			c.st.Evaluations += res.Sent
-			c.st.OpHistogram["deploy-run"]++
-			nilCount := 0
-			for _, e := range res.Returned {
-				if e == "" {
-					nilCount++
+		c13Confirm(c, "deploy.Deploy "+s.note, func(slow int) {
+			c13Guard(c, "deploy.Deploy "+s.note, func() any { return s.opt }, func() {
+				opt := s.opt
+				if slow > 1 { // the confirming run: block interval x4, block budget x2, fresh chain
+					if opt.BlockMs == 0 {
+						opt.BlockMs = 5
+					}
+					opt.BlockMs *= slow
+					opt.Budget *= 2
+					opt.Slow = slow
 				}
-			}
-			for m, k := range res.LowStreak {
-				if k > c13LowDepositBlocks {
-					c.st.AddViolation(fmt.Sprintf("deploy.Deploy (n=%d, %s): the Notary deposit of member %d stayed below the cost of one request (0.12 GAS) for %d blocks while its Deploy was running (lowest seen %s GAS) — it can neither send nor co-sign Notary requests",
-						s.opt.N, s.note, m, k, res.MinDeposit[m]), res)
-				}
-			}
-			out := "converged"
-			switch {
-			case nilCount == s.opt.N:
-				fcases = append(fcases, "(* "+s.note+" *) "+res.coq())
-				c.nontr++
-				ok := res.Notary && res.Alphabet && res.NNSID1 && res.Contracts == 8+s.opt.N && res.Distinct && res.RerunNil == s.opt.N && res.RerunSent == 0
-				for _, v := range res.Names {
-					ok = ok && v == 1
-				}
-				for _, sw := range res.Sweeps {
-					c.st.OutcomeHistogram["deploy-rerun-on-thresholds"]++
-					if sw.Bad != "" {
-						out = "re-run-on-thresholds-failed"
-						c.st.AddViolation(fmt.Sprintf("deploy.Deploy re-run on the finished chain (n=%d; %s: validators' account %s GAS, member %s GAS): %s",
-							s.opt.N, sw.Name, sw.ValidatorBefore, sw.LeaderBefore, sw.Bad), res)
+				res := c13RunE2E(c.t, opt, int64(7000+i))
+				c.st.Evaluations += res.Sent
+				c.st.OpHistogram["deploy-run"]++
+				nilCount := 0
+				for _, e := range res.Returned {
+					if e == "" {
+						nilCount++
 					}
 				}
-				if res.RerunNil != s.opt.N || res.RerunSent != 0 {
-					c.st.AddViolation(fmt.Sprintf("deploy.Deploy re-run on the finished chain (n=%d, %s; validators' account %s GAS, leader %s GAS): %d of %d members returned nil within %d blocks, %d transactions / notary requests sent (must be all, 0)",
-						s.opt.N, s.note, res.RerunValidator, res.RerunLeader, res.RerunNil, s.opt.N, res.RerunBlocks, res.RerunSent), res)
+				for m, k := range res.LowStreak {
+					if k > c13LowDepositBlocks {
+						c.violation(fmt.Sprintf("deploy.Deploy (n=%d, %s): the Notary deposit of member %d stayed below the cost of one request (0.12 GAS) for %d blocks while its Deploy was running (lowest seen %s GAS) — it can neither send nor co-sign Notary requests",
+							s.opt.N, s.note, m, k, res.MinDeposit[m]), res)
+					}
 				}
-				if !ok {
-					out = "wrong-final-state"
-					c.st.AddViolation("deploy.Deploy returned nil for every member but the final state is not the expected one, or the re-run was not idle ("+s.note+")", res)
+				out := "converged"
+				switch {
+				case nilCount == s.opt.N:
+					fcases = append(fcases, "(* "+s.note+" *) "+res.coq())
+					c.nontr++
+					ok := res.Notary && res.Alphabet && res.NNSID1 && res.Contracts == 8+s.opt.N && res.Distinct && res.RerunNil == s.opt.N && res.RerunSent == 0
+					for _, v := range res.Names {
+						ok = ok && v == 1
+					}
+					for _, sw := range res.Sweeps {
+						c.st.OutcomeHistogram["deploy-rerun-on-thresholds"]++
+						if sw.Bad != "" {
+							out = "re-run-on-thresholds-failed"
+							c.violation(fmt.Sprintf("deploy.Deploy re-run on the finished chain (n=%d; %s: validators' account %s GAS, member %s GAS): %s",
+								s.opt.N, sw.Name, sw.ValidatorBefore, sw.LeaderBefore, sw.Bad), res)
+						}
+					}
+					if res.RerunNil != s.opt.N || res.RerunSent != 0 {
+						c.violation(fmt.Sprintf("deploy.Deploy re-run on the finished chain (n=%d, %s; validators' account %s GAS, leader %s GAS): %d of %d members returned nil within %d blocks, %d transactions / notary requests sent (must be all, 0)",
+							s.opt.N, s.note, res.RerunValidator, res.RerunLeader, res.RerunNil, s.opt.N, res.RerunBlocks, res.RerunSent), res)
+					}
+					if !ok {
+						out = "wrong-final-state"
+						c.violation("deploy.Deploy returned nil for every member but the final state is not the expected one, or the re-run was not idle ("+s.note+")", res)
+					}
+				default:
+					out = "not-converged"
+					c.violation(fmt.Sprintf("deploy.Deploy did not return nil for every member within %d blocks (%s): notary role designated=%v", s.opt.Budget, s.note, res.Notary), res)
 				}
-			default:
-				out = "not-converged"
-				c.st.AddViolation(fmt.Sprintf("deploy.Deploy did not return nil for every member within %d blocks (%s): notary role designated=%v", s.opt.Budget, s.note, res.Notary), res)
-			}
-			c.st.OutcomeHistogram["deploy:"+out]++
-			c.st.Extra[fmt.Sprintf("deploy #%d (%s)", i, s.note)] = res
-			if os.Getenv("VERIF_C13_LOG") != "" {
-				fmt.Printf("E2E %s: %s %+v\n", s.note, out, *res)
-			}
+				c.st.OutcomeHistogram["deploy:"+out]++
+				c.st.Extra[fmt.Sprintf("deploy #%d (%s)", i, s.note)] = res
+				if os.Getenv("VERIF_C13_LOG") != "" {
+					fmt.Printf("E2E %s: %s %+v\n", s.note, out, *res)
+				}
+			})
 		})
 		c.st.Histories++
 	}
